@@ -210,19 +210,17 @@ func (c Case) alertProps() string {
 	return s.String()
 }
 
+// script: the alert branch (sink A below it) and a sibling branch B that reads the same messages -
+// the alert node must not alter data its sibling can observe.
 func (c Case) script() string {
+	s := "var p = stream|from().measurement('m')"
 	if c.Batch {
-		s := `batch|query('SELECT * FROM "db"."rp"."m"').period(10s).every(10s)`
-		if c.GroupBy {
-			s += ".groupBy('host')"
-		}
-		return s + c.alertProps()
+		s = `var p = batch|query('SELECT * FROM "db"."rp"."m"').period(10s).every(10s)`
 	}
-	s := "stream|from().measurement('m')"
 	if c.GroupBy {
 		s += ".groupBy('host')"
 	}
-	return s + c.alertProps()
+	return s + "\np" + c.alertProps() + "\np|log().prefix('B')"
 }
 
 const t0 = int64(1_500_000_000) * sec
@@ -544,6 +542,42 @@ func run(c Case, cc *kit.Case) {
 		return fmt.Sprintf("script: %s\nexpected events: %s\nobserved events: %s", c.script(), fmtExp(exp), fmtObs(obs))
 	}
 
+	// the sibling branch sees the original data, whatever the alert node attaches to its own copies
+	sib := env.Sink.By("B")
+	if c.Batch {
+		k := 0
+		for _, b := range batches {
+			if k >= len(sib) || sib[k].B == nil {
+				cc.Fail("alert/sibling-data", "sibling branch received %d batches, %d were fed", len(sib), len(batches))
+				return
+			}
+			o := sib[k].B
+			k++
+			if len(o.Points) != len(b.Points) || !reflect.DeepEqual(tagsOrNil(o.Tags), tagsOrNil(b.Tags)) {
+				cc.Fail("alert/sibling-data", "the sibling branch of the alert node sees batch tags %v with %d points, the input has %v with %d points\n%s", o.Tags, len(o.Points), b.Tags, len(b.Points), ctx())
+				return
+			}
+			for j, p := range b.Points {
+				if !reflect.DeepEqual(o.Points[j].Fields, p.Fields) || !reflect.DeepEqual(o.Points[j].Tags, p.Tags) {
+					cc.Fail("alert/sibling-data", "the sibling branch of the alert node sees point tags %v fields %v, the input point has tags %v fields %v (the alert node altered shared data)\n%s", o.Points[j].Tags, o.Points[j].Fields, p.Tags, p.Fields, ctx())
+					return
+				}
+			}
+		}
+	} else {
+		if len(sib) != len(pts) {
+			cc.Fail("alert/sibling-data", "sibling branch received %d points, %d were fed\n%s", len(sib), len(pts), ctx())
+			return
+		}
+		for i, p := range pts {
+			o := sib[i].P
+			if o == nil || !reflect.DeepEqual(o.Fields, p.Fields) || !reflect.DeepEqual(o.Tags, p.Tags) {
+				cc.Fail("alert/sibling-data", "the sibling branch of the alert node sees %+v, the input point has tags %v fields %v (the alert node altered shared data)\n%s", o, p.Tags, p.Fields, ctx())
+				return
+			}
+		}
+	}
+
 	if c.Flap {
 		// Metamorphic only: the flapping arithmetic is documented qualitatively.
 		// (1) observed events are a subsequence of the no-flapping events (id, level, time), per ID.
@@ -726,6 +760,13 @@ func (c Case) checkForwardLevels(cc *kit.Case, fwd []kit.Obs, exp []*expEvent, p
 			}
 		}
 	}
+}
+
+func tagsOrNil(m map[string]string) map[string]string {
+	if len(m) == 0 {
+		return nil
+	}
+	return m
 }
 
 func fmtExp(exp []*expEvent) string {
